@@ -13,7 +13,7 @@ def run(tier):
     samples = []
     for variant in ("prod", "noinl"):
         exe = build.link_driver("c01", variant, c01.SRCS, tus=("mir", "mir-gen"))
-        res = runner.run_driver(exe, tier, "C04", env={"VP_MODE": "ref"}, case_timeout=8, deadline=3300 if tier == "thorough" else 900)
+        res = runner.run_driver(exe, tier, "C04", env={"VP_MODE": "ref"}, case_timeout=8, deadline=1800 if tier == "thorough" else 900)
         rep.add_driver_result(res, "lib=" + variant)
         c = c01.coverage(res, "refinterp (before MIR_load_module), then MIR_interp and MIR_gen -O0..-O3 after MIR_link")
         cov[variant] = {k: c[k] for k in ("programs", "total_programs", "unspecified_skipped", "programs_per_family")}
